@@ -48,6 +48,10 @@ type c17HookState struct {
 	startedAtLast atomic.Int64
 	doneAtLast    atomic.Int64
 	doneAtPrev    atomic.Int64
+	// gateTimeout: safety net of a gate (default 5s); the history always
+	// releases its gates, the timeout only prevents a harness bug from
+	// parking a watcher for ever.
+	gateTimeout time.Duration
 	// watchList, when set, returns the watcher's current fsnotify watch list;
 	// wlAtLast is its value at the watcher's last read that found the file
 	// (the hook runs after the read and before the watch set is repaired).
@@ -127,7 +131,11 @@ func (h *c17HookState) onRead(err error) {
 	h.mu.Unlock()
 	if g != nil {
 		h.blocked.Add(1)
-		t := time.NewTimer(5 * time.Second)
+		gt := h.gateTimeout
+		if gt <= 0 {
+			gt = 5 * time.Second
+		}
+		t := time.NewTimer(gt)
 		select {
 		case <-g.release:
 		case <-t.C:
